@@ -613,3 +613,33 @@ def r13_8(ctx):
 def r13_9(ctx):
     from .c09 import r09_1
     r09_1(ctx)
+
+
+@rule("R13.10", min_instances=1, desc="a transcription that fails half-way is not remembered as done: the flag set before phase 2 is withdrawn when phase 2 raises")
+def r13_10(ctx):
+    """Ocp._transcribe marks the OCP as transcribed before phase 2 (phase 2 itself uses @transcribed accessors).  If phase 2
+    raises (Opti rejects a symbol, a constant-false constraint, a bad guess) and the flag stays set, a second solve() of the
+    unchanged, ill-posed OCP skips transcription and runs on the half-built NLP."""
+    P = ctx.prog
+    f = P.own_method("Ocp", "_transcribe")
+    sc = ctx.scope(f)
+    sets = [c for c in walk_no_nested(f.node) if is_call_to(c, "_set_transcribed") and c.args and ast.unparse(c.args[0]) == "True"]
+    p2 = [c for c in walk_no_nested(f.node) if is_call_to(c, "_transcribe_recurse") and any(k.arg == "phase" and ast.unparse(k.value) == "2" for k in c.keywords)]
+    ctx.check(len(sets) == 1 and len(p2) == 1, "Ocp._transcribe: flag and phase 2 located", detail="structure", expected="_set_transcribed(True) ... _transcribe_recurse(phase=2)", found="%d / %d" % (len(sets), len(p2)), fi=f)
+    if len(sets) != 1 or len(p2) != 1:
+        return
+    if sc.order[sets[0]] > sc.order[p2[0]]:
+        ctx.ok("Ocp._transcribe sets the flag after phase 2", fi=f)
+        return
+    ok = False
+    for t in walk_no_nested(f.node):
+        if isinstance(t, ast.Try) and any(x is p2[0] for st in t.body for x in ast.walk(st)):
+            for h in t.handlers:
+                broad = h.type is None or ast.unparse(h.type) in ("BaseException", "Exception")
+                resets = any(is_call_to(x, "_set_transcribed") and x.args and ast.unparse(x.args[0]) == "False" for x in ast.walk(h))
+                reraises = any(isinstance(x, ast.Raise) and x.exc is None for x in ast.walk(h))
+                ok = ok or (broad and resets and reraises)
+            for st in t.finalbody:
+                pass
+    ctx.check(ok, "Ocp._transcribe withdraws the transcribed flag when phase 2 raises", detail="after a rejection raised in phase 2 a repeated solve() of the unchanged OCP runs on the half-built NLP (no error, truncated constraints, objective 0)",
+              expected="try: self._transcribe_recurse(phase=2, ...) except: self._original._set_transcribed(False); raise", found="phase 2 unguarded", fi=f, node=p2[0])
